@@ -176,8 +176,15 @@ class C19(Property):
             progs.append(p)
         return {"kind": "mp", "keys": keys, "progs": progs, "parts": 2, "wiring": rng.chance(0.6)}
 
+    def gen_depth_case(self, rng, tier):
+        if rng.chance(0.7):
+            return {"kind": "depth", "variant": "nest", "n": rng.choice([127, 128, 129, 130, 200, 255, 256, 257, 300, 400])}
+        return {"kind": "depth", "variant": "threads", "n": rng.choice([130, 150, 200, 300])}
+
     def generate(self, rng, tier):
         r = rng.below(1000)
+        if r < 3:
+            return self.gen_depth_case(rng, tier)
         if r < 120:
             return self.gen_disk_case(rng, tier)
         if r < 128:
@@ -231,6 +238,10 @@ class C19(Property):
         for cut in (["getter", 0], ["getter", 1], ["getter", 2], ["getter", 1, "base"], ["getter-call"], ["zero"], ["none"],
                     ["truncate", 0], ["truncate", 1], ["truncate", 10], ["truncate", 20], ["truncate", 1000]):
             cs.append({"kind": "disk", "lines": ["a,b", "c"], "lines2": ["second"], "cut": cut})
+        # more simultaneous readers of one slot than a signed byte can count, on the lock table the library allocates
+        cs.append({"kind": "depth", "variant": "nest", "n": 200})
+        cs.append({"kind": "depth", "variant": "nest", "n": 128})
+        cs.append({"kind": "depth", "variant": "threads", "n": 150})
         for wiring in (False, True):
             cs.append({"kind": "mp", "keys": ["a"], "parts": 2, "wiring": wiring,
                        "progs": [[["gs", 0, 1], ["rmv", 0], ["gs", 0, 2]], [["gs", 0, 3], ["gs", 0, None]], [["rmv", 0], ["gs", 0, 4]]]})
@@ -273,6 +284,8 @@ class C19(Property):
             return self.eval_disk(case, driver)
         if kind == "mp":
             return self.eval_mp(case, driver)
+        if kind == "depth":
+            return self.eval_depth(case, driver)
         return self.eval_sched(case, driver)
 
     def eval_sched(self, case, driver):
@@ -475,11 +488,48 @@ class C19(Property):
                 fails.append(F("B", "getter for key #%s completed %d times with %d rmv calls" % (k, n_ok, o["rmv_calls"].get(k, 0)), "mp-single-flight"))
         return {"fails": fails, "nontrivial": False, "tags": tags, "impl": o, "model": None}
 
+    def eval_depth(self, case, driver):
+        fails = []
+        o = R.run_depth(case)
+        n = case["n"]
+        tags = ["depth:" + case["variant"], "depth-wiring:" + str(o["wiring"]).split(":")[0], "depth-typecode:" + str(o["typecode"])]
+        where = "%d simultaneous read locks on one slot (%s, lock table %s from %s)" % (
+            n, "one caller nesting re-entrant reads" if case["variant"] == "nest" else "threads meeting inside their with-blocks",
+            o["typecode"], "coba/multiprocessing.py" if o["wiring"] == "captured" else "the harness")
+        if o["refused_at"] is not None:
+            fails.append(F("B", "%s: read lock #%d was refused (the caller is told to wait although only readers hold the slot)" % (where, o["refused_at"]),
+                           "readers-refused"))
+        elif o["still_waiting"]:
+            fails.append(F("B", "%s: %d callers wait forever (%d were admitted)" % (where, o["still_waiting"], o["admitted"]), "readers-refused"))
+        elif o["error"]:
+            fails.append(F("B", "%s: a caller got %s" % (where, o["error"]), "readers-exception"))
+        else:
+            if o["admitted"] != n or o["bad_values"]:
+                fails.append(F("B", "%s: %d admitted, %d incomplete values" % (where, o["admitted"], o["bad_values"]), "readers-bad-value"))
+            if o["deepest"] != n:
+                fails.append(F("B", "%s: the slot reads %s with %d readers inside" % (where, o["deepest"], n), "slot-miscounts-readers"))
+            if o.get("slot_after") != 0 or o.get("locks_nonzero"):
+                fails.append(F("B", "%s: after all left the slot reads %s, _locks nonzero %s" % (where, o.get("slot_after"), o.get("locks_nonzero")),
+                               "array-nonzero-after-exit"))
+        model = None
+        if driver is not None and not fails and case["variant"] == "nest":
+            prog = [[["gs", 0, 1]] * n]
+            deep = driver.ask({"op": "replay", "idx": [7], "progs": [prog], "sched": [0] * (5 * n + 5)})
+            done = driver.ask({"op": "replay", "idx": [7], "progs": [prog], "sched": [0] * (7 * n + 5)})
+            model = {"deepest": deep["arr"], "after": done["arr"], "terminal": done["terminal"]}
+            if deep["arr"] != [o["deepest"]] or done["arr"] != [o.get("slot_after")] or done["terminal"] != [True]:
+                fails.append(F("A", "%s: implementation slot %s / %s, model %s / %s" % (where, o["deepest"], o.get("slot_after"), deep["arr"], done["arr"]),
+                               "A:reader-count"))
+        return {"fails": fails, "nontrivial": n >= 128, "tags": tags, "impl": o, "model": model}
+
     # ------------------------------------------------------------------ shrinking / reproduction
     def shrink(self, case):
         if case.get("kind", "sched") != "sched":
             if case.get("kind") == "disk" and len(case["lines"]) > 1:
                 yield dict(case, lines=case["lines"][:-1])
+            if case.get("kind") == "depth" and case["n"] > 1:
+                for m in (case["n"] // 2, case["n"] - 1):
+                    yield dict(case, n=m)
             return
         progs = case["progs"]
         for t in range(len(progs)):
@@ -501,7 +551,7 @@ class C19(Property):
     def snippet(self, case):
         if case is None:
             return ""
-        fn = {"sched": "run_sched", "disk": "run_disk", "mp": "run_mp"}[case.get("kind", "sched")]
+        fn = {"sched": "run_sched", "disk": "run_disk", "mp": "run_mp", "depth": "run_depth"}[case.get("kind", "sched")]
         return ("# runs the case on the real coba cachers (threads under the baton scheduler of /verif/harness/props/c19_sched.py)\n"
                 "import sys, json; sys.path[:0]=[%r, '/verif/harness']\nfrom props.c19_run import %s\n"
                 "case = json.loads(%r)\nr = %s(case)\nprint(json.dumps({k: v for k, v in r.items() if k != 'events'}, indent=1, default=str))\n"
